@@ -24,6 +24,35 @@ def migrateBucket (old : Peewee.St D) (acc : Except Err (Sqlite.St D)) (r : Peew
 def migrate (old : Peewee.St D) (new : Sqlite.St D) : Except Err (Sqlite.St D) :=
   old.buckets.foldl (migrateBucket old) (.ok new)
 
+/-! ## the legacy FILE (F27)
+
+`PeeweeStorage.__init__` upgrades the schema of the file it opens: `auto_migrate` adds the `datastr`
+column to a bucket table written before that column existed (every row then reads `"{}"`). Opening a
+file that already has the column writes nothing (observed by hashing the file on every C14 run, not
+modelled below the level of "has the column / content"). -/
+
+/-- a legacy database file: does its bucket table have the `datastr` column, and what it holds -/
+structure LegacyFile (D : Type) where
+  hasDatastr : Bool
+  content : Peewee.St D
+
+/-- `PeeweeStorage(testing, filepath)` on a file: the file as it is afterwards -/
+def openPeewee (f : LegacyFile D) : LegacyFile D := { f with hasDatastr := true }
+
+/-- `check_for_migration` (repaired, F27): the legacy file is copied to a scratch directory, the legacy
+    store opens the COPY and the migration reads from it. Result: the legacy file afterwards, and the
+    new store. -/
+def migrateFile (legacy : LegacyFile D) (new : Sqlite.St D) : LegacyFile D × Except Err (Sqlite.St D) :=
+  let scratch := legacy                         -- shutil.copyfile(legacy_path, scratch_path)
+  let opened := openPeewee scratch              -- PeeweeStorage(testing, filepath=scratch_path)
+  (legacy, migrate opened.content new)
+
+/-- before the repair the legacy store opened the legacy file itself -/
+def migrateFilePinned (legacy : LegacyFile D) (new : Sqlite.St D) :
+    LegacyFile D × Except Err (Sqlite.St D) :=
+  let opened := openPeewee legacy
+  (opened, migrate opened.content new)
+
 /-- `check_for_migration` / `SqliteStorage.__init__`: the migration runs when the default database
     file is new and a legacy file `peewee-sqlite[-testing].v2.*` exists beside it -/
 def legacyName (testing : Bool) : String := "peewee-sqlite" ++ (if testing then "-testing" else "")
